@@ -397,7 +397,7 @@ macro_rules! exec_impl {
                         let dec = decs.get(k).cloned().unwrap_or(Dec::Keep);
                         k += 1;
                         seen.push((e.v, $Entry::index(&e)));
-                        ids.push(e.tag);
+                        ids.push(e.tag());
                         match dec {
                             Dec::Keep | Dec::Stop => {}
                             Dec::Set(v) => {
@@ -437,7 +437,7 @@ macro_rules! exec_impl {
                             break;
                         }
                         seen.push((e.v, $Entry::index(&e)));
-                        ids.push(e.tag);
+                        ids.push(e.tag());
                         match dec {
                             Dec::Keep | Dec::Stop => {}
                             Dec::Set(v) => {
